@@ -127,11 +127,15 @@ def run(ctx):
 
     # ---- R4: _execute_pack_operations ----------------------------------------
     fn, g, where = fn_cfg(ctx, PR, f"{COLL}._execute_pack_operations")
-    packs = need(where, calling(g, attr="pack", recv="packer"), "packer.pack() call")
+    from ..astutil import bound_names, one
+
+    pk = one(bound_names(fn, lambda t, n: t.startswith("packer_class(")), "packer = packer_class(...)", where)
+    res = one(bound_names(fn, lambda t, n: t == f"{pk}.pack()"), "result = packer.pack()", where)
+    packs = need(where, calling(g, attr="pack", recv=pk), "packer.pack() call")
     rem = need(where, calling(g, attr="_remove_pack_from_memory"), "_remove_pack_from_memory call")
     save = need(where, calling(g, attr="_save_pack_names"), "_save_pack_names call")
     k1_before(ctx, "R4-pack-before-remove", where, g, packs, rem, "packs leave memory only after packer.pack() ran in that iteration", per_iteration=True)
-    k2_unreachable(ctx, "R4-remove-needs-result", where, g, {"result is None": True}, rem, "packs are not dropped from memory when packer.pack() returned None")
+    k2_unreachable(ctx, "R4-remove-needs-result", where, g, {f"{res} is None": True, f"{res} is not None": False}, rem, "packs are not dropped from memory when packer.pack() returned None")
     k1_never_after(ctx, "R4-save-after-packers", where, g, save, packs + rem, "no packer runs and no pack is dropped after pack-names was saved")
     # K5 provenance of obsolete_packs=
     prov_ok, detail = _obsolete_arg_provenance(fn)
@@ -140,8 +144,8 @@ def run(ctx):
     # ---- R5: failed packer aborts its new pack --------------------------------
     handlers = [n.id for n in g.nodes if n.kind == "handler" and "RetryWithNewPacks" in norm(n.ast.type)]
     need(where, handlers, "except RetryWithNewPacks handler")
-    ab = calling(g, attr="abort", recv="packer.new_pack")
-    g2 = g.assume({"packer.new_pack is not None": True})
+    ab = calling(g, attr="abort", recv=f"{pk}.new_pack")
+    g2 = g.assume({f"{pk}.new_pack is not None": True})
     ok, w = g2.always_after(handlers, ab)
     ctx.check("R5-abort-on-retry", where, bool(ab) and ok, "RetryWithNewPacks handler aborts the half-written pack before re-raising", construct=g.nodes[handlers[0]].text(), message="a packer that raises RetryWithNewPacks leaves its upload pack un-aborted", witness=g.show_path(w) if w else None)
 
@@ -154,8 +158,11 @@ def run(ctx):
     ctx.check("R6-obsolete-moves-only", f"{PR}:{COLL}._obsolete_packs", moves and not bad, f"every move targets ../obsolete_packs/ ({len(moves)} moves)", construct="; ".join(bad), message="a move in _obsolete_packs does not target obsolete_packs/")
     fn = repo.func(PR, f"{COLL}._clear_obsolete_packs")
     dels = [c for c in calls_in(fn) if call_attr(c) in ("delete", "delete_tree", "rmdir", "delete_multi", "move", "rename")]
-    bad = [norm(c)[:80] for c in dels if call_recv(c) != "obsolete_pack_transport"]
-    src_ok = any(isinstance(n, ast.Assign) and norm(n.targets[0]) == "obsolete_pack_transport" and "clone('obsolete_packs')" in norm(n.value) for n in walk_own(fn))
+    from ..astutil import bound_names
+
+    obs_t = bound_names(fn, lambda t, n: t.endswith(".clone('obsolete_packs')"))
+    bad = [norm(c)[:80] for c in dels if call_recv(c) not in obs_t]
+    src_ok = len(obs_t) == 1
     ctx.check("R6-clear-only-obsolete-dir", f"{PR}:{COLL}._clear_obsolete_packs", dels and not bad and src_ok, "deletes happen only on the transport cloned at obsolete_packs/", construct="; ".join(bad), message="_clear_obsolete_packs deletes outside obsolete_packs/")
 
 
